@@ -279,8 +279,11 @@ impl Display for InlinePrintAmount<'_, '_> {
                 None => write!(f, "0"),
             },
             _ => {
+                // sort by commodity so that the output is stable regardless of hash order.
+                let mut vs: Vec<_> = vs.iter().collect();
+                vs.sort_unstable_by_key(|(c, _)| c.as_str());
                 write!(f, "(")?;
-                for (i, (c, v)) in vs.iter().enumerate() {
+                for (i, (c, v)) in vs.into_iter().enumerate() {
                     if i != 0 {
                         write!(f, " + ")?;
                     }
